@@ -394,3 +394,217 @@ pub fn entry_caller_k(v: &[u8], i: usize) -> u8 {
         0
     }
 }
+
+// ---- getters, products and the window idiom ------------------------------------------------------------------------
+
+pub struct Fifo {
+    items: [u8; 32],
+    top: usize,
+}
+
+impl Fifo {
+    pub fn len(&self) -> usize {
+        self.top
+    }
+
+    pub fn good_fifo_push(&mut self, x: u8) -> bool {
+        if self.top == 32 {
+            return false;
+        }
+        self.items[self.top] = x;
+        self.top += 1;
+        true
+    }
+
+    pub fn reset(&mut self) {
+        self.top = 0;
+    }
+
+    // `top` is only ever 0..=32 (push / reset / shrink), so the prefix is in range
+    pub fn good_live(&self) -> &[u8] {
+        &self.items[..self.top]
+    }
+
+    // the getter is the field: the guard on `len()` bounds `n`, the window arithmetic keeps `top` within the array
+    pub fn good_shrink(&mut self, n: usize, keep: usize) {
+        if n == 0 || n > 8 || keep == 0 || keep > 4 {
+            return;
+        }
+        let total = n * keep;
+        if self.len() < total {
+            return;
+        }
+        let start = self.len() - total;
+        self.top = start + n;
+    }
+
+    // the getter was read before the field changed: the old relation must not be used for the new value
+    pub fn bad_getter_then_write(&mut self, i: usize) -> u8 {
+        let n = self.len();
+        if i < n {
+            self.top = 0;
+            let m = self.len();
+            if m > 0 {
+                return 0;
+            }
+            return self.items[i + 31];
+        }
+        0
+    }
+}
+
+pub fn good_window(v: &[u8], n: usize) -> &[u8] {
+    if n > v.len() {
+        return v;
+    }
+    let start = v.len() - n;
+    let end = start + n;
+    &v[start..end]
+}
+
+// the added amount is not related to the subtracted one
+pub fn bad_window_unrelated(v: &[u8], n: usize, m: usize) -> &[u8] {
+    if n > v.len() || m > v.len() {
+        return v;
+    }
+    let start = v.len() - n;
+    let end = start + m;
+    &v[start..end]
+}
+
+// the minuend changed between the subtraction and the addition
+pub fn bad_window_stale(v: &mut Vec<u8>, n: usize) -> u8 {
+    if n > v.len() || n == 0 {
+        return 0;
+    }
+    let start = v.len() - n;
+    v.truncate(1);
+    let end = start + n;
+    v[end - 1]
+}
+
+// a product is at least its factor only if the other factor is at least one
+pub fn bad_mul_by_zero(v: &[u8], a: usize, b: usize) -> u8 {
+    let p = match a.checked_mul(b) {
+        Some(p) => p,
+        None => return 0,
+    };
+    let q = a * b;
+    if q < v.len() && p == q {
+        v[a]
+    } else {
+        0
+    }
+}
+
+pub fn good_mul_at_least(v: &[u8], a: usize, b: usize) -> u8 {
+    if b == 0 || b > 16 || a > 4096 {
+        return 0;
+    }
+    let q = a * b;
+    if q < v.len() {
+        v[a]
+    } else {
+        0
+    }
+}
+
+// signed: (x - y) + c with c <= y is at most x, but it can fall below MIN
+pub fn bad_signed_window(x: i32, y: i32, c: i32) -> i32 {
+    let d = match x.checked_sub(y) {
+        Some(d) => d,
+        None => return 0,
+    };
+    let e = x - y;
+    if c <= y && d == e {
+        c + e
+    } else {
+        0
+    }
+}
+
+// ---- available expressions ---------------------------------------------------------------------------------------
+
+// the guard computes the same sum that is stored afterwards
+pub struct Slots {
+    used: usize,
+    data: [u8; 24],
+}
+
+impl Slots {
+    pub fn good_reserve(&mut self, n: usize) -> bool {
+        if n > 2 {
+            return false;
+        }
+        if self.used + n > 24 {
+            return false;
+        }
+        self.used += n;
+        true
+    }
+
+    pub fn good_slots_live(&self) -> &[u8] {
+        &self.data[..self.used]
+    }
+
+    pub fn slots_reset(&mut self) {
+        self.used = 0;
+    }
+}
+
+// an operand changed between the two sums
+pub fn bad_avail_operand_changed(v: &[u8], mut a: usize, b: usize) -> u8 {
+    if a > 1000 || b > 1000 {
+        return 0;
+    }
+    if a + b >= v.len() {
+        return 0;
+    }
+    a *= 2;
+    v[a + b]
+}
+
+// the field operand changed between the two sums
+pub struct Cell2 {
+    pos: usize,
+}
+
+impl Cell2 {
+    pub fn bad_avail_field_changed(&mut self, v: &[u8], b: usize) -> u8 {
+        if self.pos > 1000 || b > 1000 {
+            return 0;
+        }
+        if self.pos + b >= v.len() {
+            return 0;
+        }
+        self.bump();
+        v[self.pos + b]
+    }
+
+    fn bump(&mut self) {
+        self.pos = self.pos.wrapping_mul(3);
+    }
+}
+
+// y + c with c <= x - y
+pub fn good_clamped_run(flags: &mut [u8], n: usize, mut i: usize, want: usize) {
+    if flags.len() != n || i > n {
+        return;
+    }
+    let count = want.min(n - i);
+    for f in &mut flags[i..i + count] {
+        *f = 1;
+    }
+    i += count;
+    let _ = i;
+}
+
+pub fn bad_unclamped_run(flags: &mut [u8], n: usize, i: usize, want: usize) {
+    if flags.len() != n || i > n || want > 300 {
+        return;
+    }
+    let _room = n - i;
+    for f in &mut flags[i..i + want] {
+        *f = 1;
+    }
+}
